@@ -50,7 +50,7 @@ BOUND = {
     'quick': 'S: all trees <=5 nodes (mutants for <=4); S0: <=6 nodes (mutants for <=5); L in contexts of <=2 nodes '
              '(big leaves: <=1); P: 159 prims x 5 arities x 3 annots; I: all ints |n|<=16700 + boundaries to 4200 bits; '
              'tag sweeps 256 x all tails of trees <=2 nodes; injectivity dict over S, S0, L, P',
-    'thorough': 'S: all trees <=5 nodes with all mutants; S0: <=7 nodes with all mutants; L in contexts of <=3 nodes '
+    'thorough': 'S: all trees <=5 nodes with all mutants; S0: <=7 nodes (mutants for <=6); L in contexts of <=3 nodes '
                 '(big leaves: <=2); P as quick; I: all ints |n|<=2^20+300 + boundaries to 4200 bits; tag sweeps 256 x '
                 'all tails of trees <=3 nodes; injectivity dict over S, S0, L, P',
 }
@@ -61,6 +61,8 @@ ASSUMPTIONS = [
     'any exception raised by unforge_micheline counts as rejection (AssertionError, IndexError, KeyError, ...): the '
     'check runs without python -O, under which the assert-based length checks of unforge_array would disappear',
     'annotations are well-formed tokens without spaces',
+    'the deprecated primitives CREATE_ACCOUNT / STEPS_TO_QUOTA are spelled __CREATE_ACCOUNT__ / __STEPS_TO_QUOTA__ by '
+    'pytezos on purpose (tags.py); the check feeds and accepts that spelling and does not judge the renaming',
 ]
 LEVEL_TEXT = ('exhaustive over the stated finite universes (no sampling): equality with an independent encoder, round '
               'trip and injectivity are decided for every tree up to the bound; strictness is decided for every '
@@ -216,8 +218,19 @@ def with_empties(e):
     return e
 
 
+def impl_name(p):
+    """The two deprecated primitives are deliberately renamed by pytezos (`__CREATE_ACCOUNT__`); that renaming is not
+    judged: the implementation's spelling is used as input and resolved again by R.normalize on output."""
+    from pytezos.michelson.tags import prim_tags
+    if p not in prim_tags:
+        for alias, proto in R.ALIASES.items():
+            if proto == p and alias in prim_tags:
+                return alias
+    return p
+
+
 def prim_forms():
-    for p in R.PRIMS:
+    for p in map(impl_name, R.PRIMS):
         for k in range(5):
             for a in ANN:
                 yield mk(('prim', p, a), tuple({'int': str(i)} for i in range(k)))
@@ -228,11 +241,11 @@ def params(tier):
     q = tier == 'quick'
     return {
         'S': (5, 4) if q else (5, 5),          # (max nodes, max nodes with mutants)
-        'S0': (6, 5) if q else (7, 7),
+        'S0': (6, 5) if q else (7, 6),
         'ctx': (2, 1) if q else (3, 2),        # context size for small leaves, for big leaves
         'int_range': 16700 if q else 2 ** 20 + 300,
         'tails': 2 if q else 3,
-        'inj_parts': 4,
+        'inj_parts': 8,
     }
 
 
@@ -328,7 +341,7 @@ def judge_bytes(m, how):
                           f'{m.hex()} = encoding of {dumps(rv):.300}; unforge_micheline raised {iv}')]
         return lab, []
     try:
-        same = R.normalize(iv) == rv
+        same = R.normalize(iv) == R.normalize(rv)
     except Exception:
         same = False
     if not same:
